@@ -339,24 +339,25 @@ func c17Builtins(c *Ctx) {
 		return
 	}
 	registered := map[string]ssa.Instruction{}
-	for _, fn := range c.ModFuncs("texttable/decoration") {
-		if !isPkgInit(fn) {
-			continue
+	iregs, unresolved := decorationInitRegistrations(c)
+	for _, rg := range iregs {
+		registered[rg.Name] = rg.At
+		// value registered must be the result of a function whose result is a non-zero Decoration
+		nz, why := false, "the registered value is not built by a function of the module"
+		if rg.Builder != nil {
+			nz, why = true, "built by "+FuncName(rg.Builder)
+			for _, ret := range returnsOf(rg.Builder) {
+				if ok, w := nonZeroDecoration(c, results(ret)[0], 1); !ok {
+					nz, why = false, FuncName(rg.Builder)+": "+w
+				}
+			}
+		} else if rg.Value != nil {
+			nz, why = nonZeroDecoration(c, rg.Value, 0)
 		}
-		eachInstr(fn, func(in ssa.Instruction) {
-			if staticCallee(in) != regFn {
-				return
-			}
-			cc := callCommon(in)
-			if s, ok := constString(cc.Args[0]); ok {
-				registered[s] = in
-				// value registered must be the result of a function whose result is a non-zero Decoration
-				nz, why := nonZeroDecoration(c, cc.Args[1], 0)
-				r.Check("R17.3", FuncName(fn), fmt.Sprintf("registration of %q is a non-empty decoration", s), in.Pos(), nz, why)
-			} else {
-				r.Check("R17.3", FuncName(fn), "init-time registration under a non-constant name", in.Pos(), false, "cannot match against the D_* constants")
-			}
-		})
+		r.Check("R17.3", FuncName(rg.Fn), fmt.Sprintf("registration of %q is a non-empty decoration", rg.Name), rg.At.Pos(), nz, why)
+	}
+	for _, in := range unresolved {
+		r.Check("R17.3", FuncName(in.Parent()), "init-time registration under a non-constant name", in.Pos(), false, "cannot match against the D_* constants")
 	}
 	var vals []string
 	for v := range consts {
